@@ -3,10 +3,15 @@
 Model:   CodecTrace.tla: every call must return (a `call` without a `ret` - sanitizer abort, crash, assert - is not a behaviour), with an error kind
          from the documented set; records of one case differ only in the PRIOR STATE of the destination object (fresh / poisoned / left by an
          earlier decode) and must agree with the first (history variable `prev`): the outcome is a function of the input bytes only.
+         WireMachineDes.tla (I-layer, vf/desmachine.py): the C decoder's cursor machine; TLC checks that it refines Des, that the templates'
+         alignment assertions hold, that direct byte reads stay inside and that every pointer handed to a nested routine lies inside the
+         caller's buffer (PointerInside; the unclamped call site of the pinned tree is a refuted negative control).  A spy compiled around the
+         generated routines records every nested call (pointer offset, size in, result, size out); TLC replays each decode through the machine
+         (WireMachineDesTrace): des.ptr_inside decides here, differences in calls / returns / result are model drift.
 What TLA+ does not decide: out-of-bounds access, UB and leaks are OBSERVED by ASan/UBSan/LSan under which the traces are recorded (clang,
          exact-size heap buffers); the spec only says such a trace is not a behaviour.
 """
-from .. import codec
+from .. import codec, desmachine
 
 PROP = "C04"
 OWN = {"cross.rc": PROP, "cross.value": PROP, "cross.consumed": PROP}
@@ -15,8 +20,9 @@ OWN = {"cross.rc": PROP, "cross.value": PROP, "cross.consumed": PROP}
 def specs_for(ctx):
     f = ctx.pick(0.5, 1.0)
     # c/little sees every type: the little-endian option switches on the bulk-copy fast paths, the delicate part for memory safety
-    return [codec.spec("c", "c/any", {}, True), codec.spec("c", "c/little", {"target_endianness": "little"}, True),
-            codec.spec("cpp", "cpp/c++14", {}, True, std="c++14"), codec.spec("cpp", "cpp/c++17", {}, True, std="c++17", frac=f),
+    # two of the option sets also turn the generated assertions on (NUNAVUT_ASSERT = assert): an assertion that fires is a call that does not return
+    return [codec.spec("c", "c/any", {}, True), codec.spec("c", "c/little+asserts", {"target_endianness": "little", "enable_serialization_asserts": True}, True),
+            codec.spec("cpp", "cpp/c++14", {}, True, std="c++14"), codec.spec("cpp", "cpp/c++17+asserts", {"enable_serialization_asserts": True}, True, std="c++17", frac=f),
             codec.spec("cpp", "cpp/c++17-pmr", {}, True, std="c++17-pmr", frac=f)]
 
 
@@ -68,6 +74,8 @@ def run(ctx):
             info = camp.describe(r["id"])
             ctx.violation(codec.signature(PROP, "hist.rc_documented", info), "undocumented error code on %s" % info["target"], {k: v for k, v in info.items()})
     override_campaign(ctx)
+    # the deserializer's cursor machine: nested-call pointers observed by a spy, replayed through WireMachineDes (pointer clause decides here)
+    desmachine.campaign(ctx, PROP, decide_ptr=True)
     rej = camp.judge()
     codec.report(camp, ctx, rej, PROP, extra_owner=OWN,
                  also=lambda clause, info: clause in ("ser.guard", "ser.bad_len", "ser.bad_tag", "ser.too_small") or (clause.startswith("des.") and info.get("prior")))
@@ -180,4 +188,7 @@ def _first_line(s):
 
 
 def replay(ctx, case):
+    if case.get("kind") == "desmachine":
+        desmachine.replay(ctx, case, PROP)
+        return
     codec.replay_generic(ctx, case, PROP)
